@@ -20,7 +20,7 @@ CFG = dict(
          "table, built by 8 streams (same units; convertible units incl. aliases/plurals; permuted and partially overlapping sample types; the F4 "
          "shape = zeros in scaled columns next to non-zeros in unscaled ones; profile minus itself; sources = k x base under -normalize; "
          "incompatible units / period types / duplicate types (error paths); large and extreme int64 values) x {plain, -base, -diff_base} x "
-         "{-normalize}; every sample_index of the result is reported; the F4 witness is always generated. ROUND 6 deterministic shapes: 127 / 128 / 129 / 130 / 256 / 257 profiles on the source side and 128 / 129 / 130 / 257 on the base side (chunkedGrab's chunks of 128, modelled by chunked_grab), three of them also end to end on that many files. ROUND 5 deterministic shapes: profiles of different builds listing only their own functions/locations under tuple-wide ids (one address = two functions; same names with other start lines at other / the same addresses; address-less locations; inlined vs plain at one address; same build) x {sum, -base, -diff_base}, 4 of them also end to end; units+layout (a profile with reordered / extra sample types AND another unit of the family; also in the units stream C15 reuses). END-TO-END: 13 deterministic command-line "
+         "{-normalize}; every sample_index of the result is reported; the F4 witness is always generated. ROUND 7 deterministic shapes: same-named functions that differ only in their source file (same base name in another directory, other base name, absolute vs relative, no file vs file, suffix, same file) x {sum, -base, -diff_base}; the merged dump shows the file of every line. ROUND 6 deterministic shapes: 127 / 128 / 129 / 130 / 256 / 257 profiles on the source side and 128 / 129 / 130 / 257 on the base side (chunkedGrab's chunks of 128, modelled by chunked_grab), three of them also end to end on that many files. ROUND 5 deterministic shapes: profiles of different builds listing only their own functions/locations under tuple-wide ids (one address = two functions; same names with other start lines at other / the same addresses; address-less locations; inlined vs plain at one address; same build) x {sum, -base, -diff_base}, 4 of them also end to end; units+layout (a profile with reordered / extra sample types AND another unit of the family; also in the units stream C15 reuses). END-TO-END: 13 deterministic command-line "
          "shapes (sources named by content hashes / ids, plain names, names needing escaping, the same file twice, an executable first, two "
          "-diff_base files with -normalize, flag misuse) x {driver.PProf command line, one interactive session, web handlers} + random tuples x "
          "random file names x the three entry points; sources are files, output is parsed back (proto bytes, top text rows, /top page data). distinct = sha256 of the input term; "
